@@ -161,7 +161,14 @@ func runFmtDelegate(c *core.Ctx) {
 						extra = true
 					}
 				})
-				if len(calls) == 1 && !extra && isFormatError(sx.Callee(calls[0])) && len(calls[0].Call.Args) == 3 {
+				// FormatError(err, s, verb) is formatErrorInternal(err, s, verb, false): calling the latter directly with a
+				// constant false is the same thing
+				direct := len(calls) == 1 && sx.Callee(calls[0]) != nil && sx.Callee(calls[0]).Name() == "formatErrorInternal" && p.InModule(sx.Callee(calls[0])) && len(calls[0].Call.Args) == 4
+				if direct {
+					cst, isC := calls[0].Call.Args[3].(*ssa.Const)
+					direct = isC && cst.Value != nil && cst.Value.String() == "false"
+				}
+				if len(calls) == 1 && !extra && ((isFormatError(sx.Callee(calls[0])) && len(calls[0].Call.Args) == 3) || direct) {
 					a := calls[0].Call.Args
 					if ld, isLd := a[0].(*ssa.UnOp); isLd {
 						if fa, isFA := ld.X.(*ssa.FieldAddr); isFA && fa.X == ssa.Value(fn.Params[0]) && a[1] == ssa.Value(fn.Params[1]) && a[2] == ssa.Value(fn.Params[2]) {
